@@ -34,7 +34,9 @@ fn build(ch: &mut Chooser, table: &[SstString]) -> (Vec<u8>, Vec<((u32, u32), Da
     exp.push(((n as u32, 1), Data::String(lab)));
     let fw = ch.flag("formula-string-16bit");
     let fs: String = if long { format!("f\u{f6}rm{}", "y".repeat(296)) } else { "f\u{f6}rm".into() };
-    cells.push(BCell::Formula { r: n + 1, c: 0, xf: 0, res: FRes::Str(fs.clone(), fw), rgce: vec![0x1E, 1, 0] });
+    // the STRING record follows the FORMULA record directly, or after the SHRFMLA / ARRAY / TABLE record of a defining cell
+    let via = ch.pick("record-between-formula-and-string(none,SHRFMLA,ARRAY,TABLE)", &[0u16, 0x04BC, 0x0221, 0x0236]);
+    cells.push(BCell::Formula { r: n + 1, c: 0, xf: 0, res: if via == 0 { FRes::Str(fs.clone(), fw) } else { FRes::StrVia(fs.clone(), fw, via) }, rgce: vec![0x1E, 1, 0] });
     exp.push(((n as u32 + 1, 0), Data::String(fs)));
     cells.sort_by_key(|c| match c { BCell::LabelSst { r, c, .. } | BCell::Label { r, c, .. } | BCell::Formula { r, c, .. } => (*r, *c), _ => (0, 0) });
     let name = "Sh\u{e9}et";
